@@ -347,6 +347,13 @@ def judge_frame(gen, inst, call, frame, cmd, timers_reported):
             return bad
         if gen == 4:
             rec = cmd["timers"].get(aid)
+            # the four slots are numbered implicitly; the library documents that the slots of
+            # air-conditioners which are not meant are left zeroed out - anything else in
+            # them addresses a second air-conditioner
+            others = {k: t["raw"] for k, t in cmd["timers"].items()
+                      if k != aid and any(t["raw"])}
+            if others:
+                b("other-ac-slot-not-left-zeroed", slots=others)
         else:
             rs = [r for r in cmd["records"] if r["ac"] == aid]
             rec = rs[0] if len(rs) == 1 and len(cmd["records"]) == 1 else None
